@@ -127,12 +127,15 @@ def run_case(ctx, g, rng):
             ok = res[0] == want[0] and (want[0] != 302 or res[1] == want[1])
             if not ok:
                 mech = "wrong-status-or-location"
+                split_elsewhere = bool(handler_calls) and handler_calls[-1][:1] != [p]
                 if res[0] == 404 and "/" in ident:
                     mech = "identifier-with-slash-not-routed"
-                elif res[0] in (404, 422) and want[0] == 302 and d in ident:
+                elif split_elsewhere and d in ident:
                     mech = "identifier-containing-delimiter-split-at-last-occurrence"
-                elif res[0] == 302 and want[0] == 302 and d in ident:
-                    mech = "identifier-containing-delimiter-split-at-last-occurrence"
+                elif want[0] == 302 and res[0] == 422:
+                    mech = "known-prefix-answered-422"
+                elif want[0] == 302 and res[0] == 302:
+                    mech = "location-differs-from-expansion"
                 violation(["C17"], f"resolver:{name}", mech, path=path, expected_status=want[0], expected_location=want[1],
                           status=res[0], location=res[1], handler_expand_pair_calls=handler_calls, **w0)
         evaluated("resolver:frameworks-agree")
